@@ -41,6 +41,9 @@ func hasVote(rs *cstypes.RoundState, v *types.Vote) bool {
 	if vs == nil {
 		return false
 	}
+	if int(v.ValidatorIndex) >= vs.Size() {
+		return true
+	}
 	ex := vs.GetByIndex(v.ValidatorIndex)
 	return ex != nil
 }
